@@ -106,6 +106,53 @@ func InstallHooks() {
 	}
 }
 
+// listenLoopback binds ports 465 (primary, when wanted) and 25 (fallback, when wanted) on a loopback
+// address that no other scenario uses and serves them with the given reference servers.
+func listenLoopback(t int, primary, fallback bool, srvPrimary, srvFallback *refsmtp.Server) (string, []net.Listener, error) {
+	var lastErr error
+	for try := 0; try < 50; try++ {
+		n := (os.Getpid()*7919 + t*31 + try*1009) & 0xffffff
+		ip := fmt.Sprintf("127.%d.%d.%d", 1+(n>>16)%250, (n>>8)&0xff, 1+n&0xff%250)
+		var lns []net.Listener
+		ok := true
+		// both ports are bound in any case, so that no other scenario can take this address;
+		// a port that the scenario does not want is closed again at once
+		for _, p := range []struct {
+			port string
+			want bool
+			srv  *refsmtp.Server
+		}{{"465", primary, srvPrimary}, {"25", fallback, srvFallback}} {
+			l, err := net.Listen("tcp", ip+":"+p.port)
+			if err != nil {
+				lastErr, ok = err, false
+				break
+			}
+			if !p.want {
+				_ = l.Close()
+				continue
+			}
+			lns = append(lns, l)
+			srv := p.srv
+			go func() {
+				for {
+					c, err := l.Accept()
+					if err != nil {
+						return
+					}
+					srv.Go(c)
+				}
+			}()
+		}
+		if ok {
+			return ip, lns, nil
+		}
+		for _, l := range lns {
+			_ = l.Close()
+		}
+	}
+	return "", nil, fmt.Errorf("no loopback address with free ports 465 and 25: %v", lastErr)
+}
+
 // Credentials of the one account the reference server knows.
 const (
 	User = "verif.user@example.test"
@@ -583,7 +630,7 @@ func (rn *Runner) Run() {
 		caps = append(caps, "STARTTLS")
 	}
 	scfg := refsmtp.Config{Caps: caps, Caps2: caps2, Faults: faults, Addr: addr, Expected: expected, CredScan: scan}
-	if cfg.Starttls || cfg.Policy == "mandatory" || cfg.Policy == "opportunistic" {
+	if cfg.Starttls || cfg.Policy == "mandatory" || cfg.Policy == "opportunistic" || cfg.Policy == "implicit" {
 		mat, err := refsmtp.Material(TLSDir)
 		if err != nil {
 			rn.Infra = err
@@ -603,6 +650,7 @@ func (rn *Runner) Run() {
 				Challenge: fmt.Sprintf("<%d.verif@refsmtp.test>", rn.T), TLS: st}
 		}
 	}
+	scfg.Implicit = cfg.Policy == "implicit"
 	rn.srv = refsmtp.New(scfg, r)
 
 	refusePrimary := false
@@ -643,7 +691,34 @@ func (rn *Runner) Run() {
 	opts := []mail.Option{
 		mail.WithDialContextFunc(dial), mail.WithTimeout(timeout), mail.WithHELO("client.test"),
 	}
-	if cfg.Fallback {
+	implicitHost := ""
+	if cfg.Policy == "implicit" {
+		// Implicit TLS is only in effect with the library's own dialer: real TCP on a loopback address of
+		// this scenario's own, port 465 with TLS from the first byte (nothing listens when the scenario
+		// refuses the primary port) and - with fallback - port 25 with a cleartext SMTP server.
+		scfg2 := scfg
+		scfg2.Implicit = false
+		srv2 := refsmtp.New(scfg2, r)
+		ip, lns, lerr := listenLoopback(rn.T, !refusePrimary, cfg.Fallback, rn.srv, srv2)
+		if lerr != nil {
+			r.Emit("skip", "why", clip(lerr))
+			r.Emit("end", "t", rn.T)
+			r.Seal()
+			return
+		}
+		defer func() {
+			for _, l := range lns {
+				_ = l.Close()
+			}
+			srv2.Release()
+			if !srv2.Wait(Watchdog) {
+				srv2.Kill()
+			}
+		}()
+		implicitHost = ip
+		opts = []mail.Option{mail.WithTimeout(timeout), mail.WithHELO("client.test"), mail.WithSSLPort(cfg.Fallback),
+			mail.WithTLSConfig(&tls.Config{ServerName: "mail.example.test", MinVersion: tls.VersionTLS12})}
+	} else if cfg.Fallback {
 		opts = append(opts, mail.WithTLSPortPolicy(policy)) // 587 with fallback to 25 when opportunistic
 	} else {
 		opts = append(opts, mail.WithTLSPolicy(policy))
@@ -687,6 +762,9 @@ func (rn *Runner) Run() {
 	case "both":
 		opts = append(opts, mail.WithDSNMailReturnType(mail.DSNMailReturnFull),
 			mail.WithDSNRcptNotifyType(mail.DSNRcptNotifyFailure))
+	}
+	if implicitHost != "" {
+		host = implicitHost
 	}
 	c, err := mail.NewClient(host, opts...)
 	if err != nil {
